@@ -80,6 +80,37 @@ def gen_cases(rng, tier):
         c["resp"]["assertions"][0]["sig_key"] = "idp_sign2"
         c["tag"] += "/key2"
         yield c
+    # HISTORY on one long-lived client: a signed message of the IdP is verified, then the metadata is reloaded
+    # (Entity.reload_metadata) with the IdP's signing certificates replaced / withdrawn / unchanged, then the message
+    # under test arrives, signed with a key of the old or of the new generation.  What counts is the metadata in force
+    # when the message arrives: `valid` = made with a key published now, `untrusted` = made with any other key
+    # (whatever the client verified with it before).
+    GEN1 = ["idp_sign", "idp_sign2"]     # what scenario.default_idp_entity publishes
+    for first_key, after, opts, which, enc in itertools.product(
+            (None, "idp_sign", "idp_sign2"), (["idp_sign2"], ["idp_sign"], [], ["idp_sign", "idp_sign2"], ["member2"]),
+            ({}, {"want_resp": False, "want_assert": True}, {"want_resp": False, "want_either": True}),
+            ("resp", "assertion", "both"), (False, True)):
+        if tier == "quick" and first_key != "idp_sign" and rng.random() > 0.3:
+            continue
+        for key in GEN1:
+            state = "valid" if key in after else "untrusted"
+            c = cell(opts, state if which in ("resp", "both") else "absent", state if which in ("assertion", "both") else "absent",
+                     enc, "post")
+            for elem in (c["resp"], c["resp"]["assertions"][0]):
+                elem["sig_key"] = elem["untrusted_key"] = key
+            hist = []
+            if first_key is not None:
+                first = copy.deepcopy(cell({}, "valid", "valid", False, "post")["resp"])
+                first["id"], first["in_response_to"] = "r-0", "req-0"
+                first["sig_key"] = first["assertions"][0]["sig_key"] = first_key
+                first["assertions"][0]["id"] = "a-00"
+                first["assertions"][0]["subject"]["confs"][0]["data"]["irt"] = "req-0"
+                hist.append({"resp": first, "outstanding": [["req-0", "/came/from/req-0"]]})
+            hist.append({"reload_keys": after})
+            c["history"] = hist
+            c["tag"] = "history:first=%s/after=%s/key=%s/%s/%s/%s" % (first_key, "+".join(after) or "none", key, which,
+                                                                       "enc" if enc else "plain", c["tag"])
+            yield c
     # the table for the forms a configuration may take: options as text, the dictionary loaded through the generic
     # Config / IdPConfig classes instead of SPConfig
     for opts, rsig, asig in itertools.product(OPTS, SIGS[:2], SIGS[:2]):
